@@ -1,6 +1,6 @@
 """C05 -- DL_POLY TABEAM (EAM and EEAM): layout model vs writeTABEAM / writeTABEAMFinnisSinclair, the TABEAM
 tabulation classes and potable (DL_POLY_EAM, DL_POLY_EAM_fs); oracle."""
-import io
+import io, random
 import core, layout, eam_common as ec, p_c01
 from layout import q
 
@@ -44,11 +44,33 @@ def gen_case(rng, thorough=False, fs=None):
     if c['route'] == 'function':
         c['drho'] = rng.choice([0.5, 0.05, round(rng.uniform(0.01, 2), 4)]); c['dr'] = rng.choice([0.1, 0.01, round(rng.uniform(0.001, 0.5), 4)])
     if rng.random() < 0.2:
+        # species labels longer than eight characters, two of them equal in their first eight: the headers name them in full
+        n = len(c['elements']); new = ['Uranium_4plus', 'Uranium_5plus'][:n]
+        ren = {e['sp']: nw for e, nw in zip(c['elements'], new)}
+        for e in c['elements']: e['sp'] = ren.get(e['sp'], e['sp'])
+        c['pairs'] = [[ren.get(a, a), ren.get(b, b)] for a, b in c['pairs']]
+        c['labels'] = sorted(e['sp'] for e in c['elements']) + c['labels'][n:]
+    if rng.random() < 0.2:
         # pair potentials that name a species outside the EAM set: they have no block in the file and do not count
         c['labels'] = c['labels'] + ['Qq']
         c['pairs'] = c['pairs'] + [['Qq', 'Qq']] + ([[c['elements'][0]['sp'], 'Qq']] if rng.random() < 0.5 else [])
         rng.shuffle(c['pairs'])
     return c
+
+def long_label_corpus():
+    out = []
+    for k in range(2):
+        rng = random.Random(500 + k)
+        for t in range(50):
+            c = gen_case(random.Random(500 + k + 10 * t), fs=bool(k))
+            if len(c['elements']) >= 2 and 'Qq' not in c['labels'] and not c['elements'][0]['sp'].startswith('Uranium'): break
+        n = len(c['elements']); new = ['Uranium_4plus', 'Uranium_5plus'] + ['Zz%d' % i for i in range(n)]
+        ren = {e['sp']: nw for e, nw in zip(c['elements'], new)}
+        for e in c['elements']: e['sp'] = ren[e['sp']]
+        c['pairs'] = [[ren.get(a, a), ren.get(b, b)] for a, b in c['pairs']]
+        c['labels'] = sorted(e['sp'] for e in c['elements']) + c['labels'][n:]
+        out.append(c)
+    return out
 
 def potable_corpus():
     """fixed potable models: [Pair] entries for a species that has neither an embedding nor a density function (not an EAM species): the
@@ -69,7 +91,7 @@ def run_potable(case):
 
 def correspond(ctx):
     rng = ctx['rng']
-    cases = [gen_case(rng, ctx['thorough']) for _ in range(200 if ctx['thorough'] else 45)]
+    cases = long_label_corpus() + [gen_case(rng, ctx['thorough']) for _ in range(200 if ctx['thorough'] else 45)]
     pcases = potable_corpus()
     for _ in range(30 if ctx['thorough'] else 8):
         fs = rng.random() < 0.5
@@ -183,6 +205,8 @@ def oracle(case):
     want_d = sorted((a, b) for a in names for b in names) if fs else sorted((a,) for a in names)
     if sorted(dn) != want_d: fails.append('dens blocks %r, expected %r' % (dn, want_d))
     for b in blocks:
+        if any(sp_ not in names for sp_ in b['species']):
+            fails.append('%s block header names %r, which is not a species of the model (%r)' % (b['kind'], b['species'], names)); continue
         step, cnt = (drho, nrho) if b['kind'] == 'embe' else (dr, nr)
         if b['n'] != cnt or len(b['vals']) != cnt: fails.append('%s %s: header n=%d, %d values, expected %d' % (b['kind'], b['species'], b['n'], len(b['vals']), cnt)); continue
         if b['start'] != 0.0 or abs(b['end'] - (cnt - 1) * step) > 1.5e-6: fails.append('%s %s: range %r..%r, expected 0..%r' % (b['kind'], b['species'], b['start'], b['end'], (cnt - 1) * step))
@@ -196,6 +220,7 @@ def oracle(case):
 
 def search_cases(rng, n):
     for c in potable_corpus(): yield c
+    for c in long_label_corpus(): yield c
     for k in range(n // 4):
         yield gen_case(rng)
         if k % 6 == 0:
